@@ -130,7 +130,86 @@ def oracle_iteration(ctx: Ctx, case):
     ctx.count(nontrivial=bool(any_flags - {"done"}), classes=sorted(any_flags) + [case["algo"], f"E={E}"], key=[case["config"], case["algo"], E, sorted(any_flags), case["key"] % 64])
 
 
-PARTS = {"rollout": oracle_rollout, "raw_action": oracle_raw_action, "iteration": oracle_iteration}
+# ----------------------------------------------------------------------------- built-in environments
+import functools
+
+
+@functools.lru_cache(maxsize=None)
+def _classic_tl(name):
+    from lerax.env import classic_control as cc
+    from lerax.wrapper import TimeLimit
+
+    return TimeLimit(getattr(cc, name)(), 5)
+
+
+@eqx.filter_jit
+def _env_parts(env, state, action):
+    k = jr.key(0)
+    nxt = env.transition(state, action, key=k)
+    return nxt, env.observation(state, key=k), env.observation(nxt, key=k), env.reward(state, action, nxt, key=k), env.terminal(nxt, key=k), env.truncate(nxt)
+
+
+def oracle_classic_rollout(ctx: Ctx, case):
+    """The same record-keeping law on built-in deterministic environments (CartPole / Pendulum under a
+    TimeLimit) with the library's own MLP policy: the oracle is the environment's own functional API."""
+    from checks.c01_step_reset import _classic_state, classic_fresh
+    from lerax.policy import MLPActorCriticPolicy
+    from lerax.space import Box
+
+    name, T, N = case["env"], case["T"], case["time_limit"]
+    env = eqx.tree_at(lambda e: e.max_episode_steps, _classic_tl(name), jnp.asarray(N, dtype=int))
+    policy = MLPActorCriticPolicy(env, feature_size=4, feature_width=8, feature_depth=1, value_width=8, value_depth=1, action_width=8, action_depth=1, log_std_init=case["log_std"], key=jr.key(case["pkey"]))
+    algo = onpolicy.with_gamma(onpolicy.algo_template(case["algo"], 1, T), case["gamma"], case["lam"] if case["algo"] != "REINFORCE" else None)
+    state0 = _classic_state(env, name, case["y"], 0.0, case["count"])
+    ss = onpolicy.step_state(case_spec_dummy, 0, 0, 0)
+    ss = eqx.tree_at(lambda x: (x.env_state, x.policy_state), ss, (state0, None), is_leaf=lambda x: x is None)
+    ss2, buf = onpolicy.collect(algo, env, policy, ss, jr.key(case["key"]))
+    values, log_probs = onpolicy.reevaluate(policy, buf)
+    tags = {"algo": case["algo"], "env": name}
+    fresh = classic_fresh(name)
+    is_box = isinstance(env.action_space, Box)
+    state = state0
+    acts = np.asarray(buf.actions)
+    obs = np.asarray(buf.observations, np.float64)
+    flags = set()
+    for t in range(T):
+        a = acts[t]
+        ca = np.clip(a, np.asarray(env.action_space.low), np.asarray(env.action_space.high)) if is_box else a
+        if is_box and not np.array_equal(ca, a):
+            flags.add("clip")
+        nxt, o_t, o_next, r, term, trunc = _env_parts(env, state, jnp.asarray(ca, dtype=acts.dtype))
+        ctx.close(obs[t], o_t, "C04/classic/observation-not-of-current-state", tags=tags, rtol=1e-9, atol=1e-9, t=t)
+        ctx.close(np.asarray(buf.values)[t], np.asarray(values)[t], "C04/stored-value-not-policys", tags=tags, t=t)
+        ctx.close(np.asarray(buf.log_probs)[t], np.asarray(log_probs)[t], "C04/stored-logprob-not-of-stored-action", tags=tags, t=t)
+        term, trunc = bool(term), bool(trunc)
+        done = term or trunc
+        ctx.check(bool(np.asarray(buf.dones)[t]) == done, "C04/done-flag", tags=tags, t=t)
+        boot = trunc and not term
+        exp = float(r) + (case["gamma"] * float(policy.value(None, o_next)[1]) if boot else 0.0)
+        if not np.isclose(float(np.asarray(buf.rewards)[t]), exp, rtol=1e-9, atol=1e-9):
+            ctx.fail("C04/classic/reward-or-bootstrap", tags=tags, t=t, observed=float(np.asarray(buf.rewards)[t]), expected=exp, term=term, trunc=trunc)
+        flags |= {"both"} if term and trunc else {"term_only"} if term else {"trunc_only"} if trunc else set()
+        if done:
+            nstate = ss2.env_state if t + 1 == T else None
+            if nstate is None:
+                o = obs[t + 1]
+                y = o if name == "CartPole" else np.array([np.arctan2(o[1], o[0]), o[2]])
+                nstate = _classic_state(env, name, y.tolist(), 0.0, 0)
+            ctx.check(fresh(nstate) is None, "C04/post-done-state-not-initial", tags=tags, t=t, why=fresh(nstate))
+            state = nstate
+        else:
+            state = nxt
+    # carried state
+    from checks.c01_step_reset import tree_close
+
+    if not (T and bool(np.asarray(buf.dones)[-1])):
+        ctx.check(tree_close(ss2.env_state, state, 1e-9, 1e-9), "C04/carried-env-state", tags=tags)
+    ctx.count(nontrivial=bool(flags), classes=sorted(flags) + [name, "classic"], key=[name, case["algo"], sorted(flags), N, case["key"] % 64])
+
+
+case_spec_dummy = {"nS": 1, "time_limit": None}
+
+PARTS = {"rollout": oracle_rollout, "raw_action": oracle_raw_action, "iteration": oracle_iteration, "classic_rollout": oracle_classic_rollout}
 
 
 # ----------------------------------------------------------------------------- strategies
@@ -189,11 +268,25 @@ def rollout_cases(draw, config, T, tl, algos=("PPO", "A2C", "REINFORCE"), far_ou
     return case
 
 
+@st.composite
+def classic_cases(draw, name, T):
+    from checks.c01_step_reset import CLASSIC_REGIONS
+
+    N = draw(st.integers(1, 6))
+    lo, hi = CLASSIC_REGIONS[name][draw(st.integers(0, len(CLASSIC_REGIONS[name]) - 1))]
+    return {
+        "env": name, "T": T, "time_limit": N, "count": draw(st.integers(0, N - 1)),
+        "y": [draw(st.floats(a, b, allow_nan=False)) if a < b else float(a) for a, b in zip(lo, hi)],
+        "algo": draw(st.sampled_from(["PPO", "A2C", "REINFORCE"])), "gamma": draw(st.sampled_from([0.99, 0.9, 1.0])), "lam": draw(st.sampled_from([0.95, 1.0, 0.0])),
+        "log_std": draw(st.sampled_from([0.0, 1.0, 2.0])), "pkey": draw(st.integers(0, 2**31 - 2)), "key": draw(st.integers(0, 2**31 - 2)),
+    }
+
+
 def run(ctx: Ctx):
     ctx.rule = (
         "Finite MDP tables (transition/reward/terminal/truncation/initial-support/mask), TimeLimit N, table policies with a "
         "counter state (Categorical / unsquashed Gaussian so samples leave the Box), start state, key -> real collect_rollout / "
-        "iteration of PPO, A2C, REINFORCE; every row is re-derived by a NumPy interpreter of the tables. Non-trivial: rollout with "
+        "iteration of PPO, A2C, REINFORCE; every row is re-derived by a NumPy interpreter of the tables (and, for CartPole / Pendulum under a TimeLimit with the library MLP policy, by the environment's own functional API). Non-trivial: rollout with "
         "clipping active, a truncation-only end, a termination-only end, both on one step, or a restrictive mask; distinct by "
         "(config, flag set, T, N, key bucket)."
     )
@@ -221,6 +314,8 @@ def run(ctx: Ctx):
         ctx.run_given("rollout", rollout_cases(config, T, tl), oracle_rollout, n)
     for config, T, tl in [("disc-onehot", 16, "some"), ("box-scalar", 16, "some"), ("disc-dict", 5, "some"), ("box-vec2", 5, "none")] + ([("disc-masked", 16, "some"), ("disc-tuple", 5, "some")] if not quick else []):
         ctx.run_given("rollout", rollout_cases(config, T, tl, policy_kind="mlp"), oracle_rollout, ctx.n(60, 1200))
+    for name, T in (("CartPole", 12), ("Pendulum", 12)):
+        ctx.run_given("classic_rollout", classic_cases(name, T), oracle_classic_rollout, ctx.n(60, 1200))
     for config in ("box-scalar", "box-vec2"):
         ctx.run_given("raw_action", rollout_cases(config, 8, "some", algos=("PPO",), far_outside=True), oracle_raw_action, ctx.n(60, 1000))
     it_plan = [("disc-onehot", "PPO", 3, 8), ("box-scalar", "A2C", 3, 5), ("disc-masked", "REINFORCE", 1, 8)]
